@@ -606,3 +606,153 @@ func sharedIngredient(v ssa.Value, region *ssa.Function) string {
 	walk(v, 0)
 	return res
 }
+
+// R-PAR-11 --------------------------------------------------------------------
+
+func init() {
+	Register(&Rule{ID: "R-PAR-11", Props: []string{"C13"}, Floor: 1,
+		Doc: "library objects shared by goroutines: a local object whose type comes from another module and is not documented as safe for concurrent use (same table as R-PAR-8) is used — by method calls — from at most one of the goroutines that run concurrently in a function (two `go` operands not separated by a Wait, or one region with several instances), unless every such call holds a common mutex; values cross between the goroutines through channels or atomics (today: the file loaders hand the reader's position over with atomic.StoreInt64, the reader itself stays with the reading goroutine)",
+		Controls: []string{"CtlReaderSharedByTwoGoroutines"},
+		Run:      rulePar11})
+}
+
+func rulePar11(c *Ctx) {
+	e := parAnalysis(c.P)
+	n := 0
+	for _, fam := range e.families {
+		type use struct {
+			r    *parRegion
+			call ssa.CallInstruction
+		}
+		uses := map[string][]use{}
+		typeOf := map[string]string{}
+		for _, r := range fam.regions {
+			fns := funcAndClosures(r.fn)
+			for _, f := range fns {
+				for _, call := range core.Calls(f) {
+					com := call.Common()
+					var recv ssa.Value
+					if com.IsInvoke() {
+						continue // interface receivers: the dynamic type is not known here
+					}
+					if g := com.StaticCallee(); g == nil || g.Signature.Recv() == nil || len(com.Args) == 0 {
+						continue
+					}
+					recv = com.Args[0]
+					named := externalNamed(recv.Type())
+					if named == "" || isConcurrentSafeNamed(named) {
+						continue
+					}
+					// the receiver is a variable captured from the parent (directly or through a nested closure of the region)
+					root := ""
+					for _, o := range core.Origins(recv, false) {
+						switch x := o.(type) {
+						case *ssa.FreeVar:
+							root = capturedRoot(x)
+						case *ssa.UnOp:
+							if fv, ok := x.X.(*ssa.FreeVar); ok {
+								root = capturedRoot(fv)
+							}
+						case *ssa.Parameter:
+							// Origins follows a captured cell back to what the enclosing function stored into it
+							if x.Parent() != f {
+								root = x.Name()
+							}
+						default:
+							if in, ok := o.(ssa.Instruction); ok && in.Parent() != f && in.Parent() != nil && isEnclosing(in.Parent(), f) {
+								root = o.Name() + "@" + in.Parent().Name()
+							}
+						}
+					}
+					if root == "" {
+						continue
+					}
+					uses[root] = append(uses[root], use{r, call})
+					typeOf[root] = named
+				}
+			}
+		}
+		var roots []string
+		for k := range uses {
+			roots = append(roots, k)
+		}
+		sort.Strings(roots)
+		perType := map[string]int{}
+		for _, root := range roots {
+			n++
+			c.Touch(fam.parent)
+			perType[typeOf[root]]++
+			key := c.KeyAt(fam.parent, fmt.Sprintf("%s #%d used by one goroutine at a time", typeOf[root], perType[typeOf[root]]))
+			bad := ""
+			us := uses[root]
+			for i := 0; i < len(us) && bad == ""; i++ {
+				for j := i; j < len(us) && bad == ""; j++ {
+					a, b := us[i], us[j]
+					conc := false
+					if a.r == b.r {
+						conc = a.r.multi && i != j || (a.r.multi && len(us) == 1)
+					} else {
+						conc = fam.concurrent(a.r, b.r)
+					}
+					if !conc {
+						continue
+					}
+					if lockHeldAt(c.P, a.call) != "" && lockHeldAt(c.P, b.call) != "" {
+						continue
+					}
+					bad = fmt.Sprintf("%s at %s (%s) and %s at %s (%s) run concurrently on the same %s without a common lock", c.P.CalleeName(a.call), c.Pos(a.call), c.P.Name(a.r.fn), c.P.CalleeName(b.call), c.Pos(b.call), c.P.Name(b.r.fn), typeOf[root])
+				}
+			}
+			c.Check(bad == "", key, c.FnPos(fam.parent), fmt.Sprintf("%d method call(s), all from one goroutine at a time", len(us)), bad+": the object's internal state is read and written by two goroutines at once")
+		}
+	}
+	if n == 0 {
+		c.Unknown("shared library objects", "-", "cannot-analyse: no concurrent region calls a method on a captured object of a type from another module (the file loaders' readers are expected)")
+	}
+}
+
+// capturedRoot names the parent's variable behind a free variable (through nested closures).
+func capturedRoot(fv *ssa.FreeVar) string {
+	fn := fv.Parent()
+	for depth := 0; depth < 4 && fn != nil && fn.Parent() != nil; depth++ {
+		idx := -1
+		for i, q := range fn.FreeVars {
+			if q == fv {
+				idx = i
+			}
+		}
+		if idx < 0 {
+			break
+		}
+		parent := fn.Parent()
+		var bound ssa.Value
+		for _, b := range parent.Blocks {
+			for _, in := range b.Instrs {
+				if mc, ok := in.(*ssa.MakeClosure); ok && mc.Fn == ssa.Value(fn) && idx < len(mc.Bindings) {
+					bound = mc.Bindings[idx]
+				}
+			}
+		}
+		if bound == nil {
+			break
+		}
+		if pf, ok := bound.(*ssa.FreeVar); ok {
+			fv, fn = pf, parent
+			continue
+		}
+		if al, ok := bound.(*ssa.Alloc); ok {
+			return al.Comment
+		}
+		return bound.Name()
+	}
+	return fv.Name()
+}
+
+func isEnclosing(outer, inner *ssa.Function) bool {
+	for p := inner.Parent(); p != nil; p = p.Parent() {
+		if p == outer {
+			return true
+		}
+	}
+	return false
+}
